@@ -16,6 +16,7 @@ EXTENDS Naturals, Sequences, FiniteSets, TLC, Json
 
 CONSTANTS MaxOps
 Features == {"literal-none", "varargs-tuple", "alias-reexport", "foreign", "inherited-twice",
+             "abstract-class",     \* classes that list abc.ABC (alone and next to other bases), one of them nested in a private class that two public classes inherit
              "package-newtype",    \* a NewType of the package (no class of the model) used as a type in its own module and in another one
              "two-reexporters"}    \* a class re-exported by a deeper package that sorts before a shallower one (the model lists them in id order)
 Packages == { {f} : f \in Features } \cup { Features }
